@@ -5,7 +5,7 @@ import os
 import numpy as np
 
 
-def make_ocr_engine_dir(path, chars, H=16, seed=0, blank_bias=6.0, wscale=0.6, masked=(), embed_num=None, embed_id=None, base_bias=0.0):
+def make_ocr_engine_dir(path, chars, H=16, seed=0, blank_bias=6.0, wscale=0.6, masked=(), embed_num=None, embed_id=None, base_bias=0.0, width_sensitive=False):
     """TorchScript Conv2d(3, C, (H,4), stride (1,4)): frame t depends on pixel columns [4t, 4t+4) only; all-zero
     padding decodes to blank (blank bias). Saved as <ckpt>.cpu + JSON, loadable by PytorchEngineLineOCR.__init__.
     masked: symbol indices whose logit is always -inf (a model with a restricted alphabet).
@@ -43,6 +43,7 @@ def make_ocr_engine_dir(path, chars, H=16, seed=0, blank_bias=6.0, wscale=0.6, m
             super().__init__()
             g = torch.Generator().manual_seed(seed)
             self.conv = torch.nn.Conv2d(3, C, kernel_size=(H, 4), stride=(1, 4))
+            self.width_gain = 3.0 if width_sensitive else 0.0
             with torch.no_grad():
                 self.conv.weight.copy_(torch.randn(self.conv.weight.shape, generator=g) * wscale)
                 self.conv.bias.zero_()
@@ -52,7 +53,11 @@ def make_ocr_engine_dir(path, chars, H=16, seed=0, blank_bias=6.0, wscale=0.6, m
                     self.conv.bias[m] = float('-inf')
 
         def forward(self, x):
-            return self.conv(x)[:, :, 0, :]
+            y = self.conv(x)[:, :, 0, :]
+            # (for history checks, gain 0 otherwise) every score also depends on the width the batch was padded to, as with a network that normalises over the whole input
+            w = float(x.shape[3])
+            y = y + torch.sin(torch.arange(y.shape[1], dtype=torch.float32) * w * 0.013)[None, :, None] * self.width_gain
+            return y
 
     os.makedirs(path, exist_ok=True)
     net = StubNet(H, len(chars) + 1, seed).eval()
